@@ -41,6 +41,7 @@ type UISession struct {
 	subDone  bool
 	ExecOutcome func(rec simexec.Record) simexec.Outcome
 	racing   bool
+	mainMode bool // the session runs servitor's real main() (uimain.go)
 }
 
 type Frame struct {
@@ -133,7 +134,16 @@ func (u *UISession) terminal(fd int, b []byte) {
 		}
 		text = text[j+1:]
 	}
+	if u.mainMode && !simterm.Raw() {
+		// cooked mode again (main.go restores the terminal before it reports a failed
+		// subcommand): plain text, still the terminal's to display
+		checkTerm(u.r, "text written after leaving raw mode", strings.NewReplacer("\r", "", "\t", " ").Replace(text))
+		return
+	}
 	frame := strings.ReplaceAll(text, "\r\n", "\n")
+	if u.mainMode && frame == "" {
+		return // main.go clears the screen on ctrl+c
+	}
 	if (!homed || !erased) && !u.r.S.Draining() {
 		u.r.Violate("C16", "M-height", "frame-not-drawn-from-a-cleared-home-position", fmt.Sprintf("the terminal received %q...: a frame that is not preceded by cursor-home and erase-screen is drawn below whatever was there and scrolls the screen", trunc(string(b), 60)))
 	}
